@@ -436,9 +436,14 @@ methods of the class; regenerated from the source's AST on every run) are all ca
 `self.get_field_extra_key(…)`, which for field models that write extras as keyword arguments
 (pydantic v1) is `ModelResolver.get_valid_field_name_and_alias(key)[0]` — a Python identifier (C07).
 A path that returns `key.lstrip("x-")` without the sanitiser breaks this theorem
-(`Field(None, display-name=…)` would not parse). -/
+(`Field(None, display-name=…)` would not parse).  And the sanitiser IS that resolver on every return path of
+every function bound to the name under `can_have_extra_keys` (Gen/CodeSites.fieldExtraKeySanitiser, from the
+AST; Props/C10 `field_extra_key_sanitiser_resolves`): a path that hands the key back unchanged — e.g. for
+`key.isidentifier()`, which holds of every Python keyword — would write `Field(None, not=…, class=…)`. -/
 theorem field_extra_keys_sanitised :
     Dcg.Gen.CodeSites.fieldExtraKeySites.all (fun s => s.2.2) = true ∧
-    Dcg.Gen.CodeSites.fieldExtraKeySites ≠ [] := by decide
+    Dcg.Gen.CodeSites.fieldExtraKeySites ≠ [] ∧
+    Dcg.Gen.CodeSites.fieldExtraKeySanitiser.all Dcg.Model.CodeSites.sanitiserPathOK = true ∧
+    Dcg.Gen.CodeSites.fieldExtraKeySanitiser.any Dcg.Model.CodeSites.sanitiserBindsKeywordCase = true := by decide
 
 end Dcg.Props.C01
